@@ -332,6 +332,52 @@ static std::string point_class(const WP& wp, bool moved) {
   return std::string(wp.indiv ? "indiv" : "coll") + (wp.use_guard ? "-guard" : "") + (moved ? "-moved" : "-kept");
 }
 
+// ---------- triage classes (deterministic predicates on the failing input) ----------
+// number of wrap quadrants spanned by variable v over one constraint system, computed as wrap_assign.hh does
+// (bounds rounded down); 0 = unbounded, -1 = empty
+static long quad_extent(int n, const Sys& S, int v, const WP& wp) {
+  Vec o(n); o[v] = 1; ref::SupResult hi = ref::supremum(n, S, o); o[v] = -1; ref::SupResult lo = ref::supremum(n, S, o);
+  if (!hi.nonempty) return -1; if (!hi.bounded || !lo.bounded) return 0;
+  Z u = zfloor(hi.sup), l = zfloor(Q(-lo.sup));
+  Z fq = zfloor(Q(l - wp.lo) / Q(wp.M)), lq = zfloor(Q(u - wp.lo) / Q(wp.M));
+  Z e = lq - fq + 1; return e > 1000000 ? 1000000 : e.get_si();
+}
+static std::string generic_class(const Shadow& SA, int n, const WP& wp, const Vec& p, bool moved) {
+  std::string base = point_class(wp, moved);
+  if (wp.indiv || wp.ov != 0) return base;
+  for (size_t k = 0; k < SA.d.size(); ++k) {
+    if (!ref::sat(SA.d[k].cons, p)) continue;
+    bool each_ok = true; unsigned long long prod = 1;
+    for (size_t i = 0; i < wp.vlist.size(); ++i) { long e = quad_extent(n, SA.d[k].cons, wp.vlist[i], wp); if (e <= 0 || (unsigned long) e > wp.thr) each_ok = false; else prod *= (unsigned long long) e; }
+    if (each_ok && prod > wp.thr) return std::string("coll-threshold-product") + (wp.use_guard ? "-guard" : "");
+    break;
+  }
+  return base;
+}
+// grids: which wrapped variable's value is missing from the result, and what its value set was in the argument
+static std::string grid_class(const Shadow& SA, const Shadow& SR, int n, const WP& wp, const Vec& q) {
+  if (SR.d.empty()) return "result-empty";
+  ref::Lattice LA = ref::from_congruences(n, SA.d[0].cgs), LR = ref::from_congruences(n, SR.d[0].cgs);
+  std::set<std::string> kinds;
+  for (size_t i = 0; i < wp.vlist.size(); ++i) {
+    int v = wp.vlist[i]; Vec e(n); e[v] = 1;
+    if (ref::vs_contains(ref::values(LR, e, Q(0)), q[v])) continue;
+    ref::ValSet va = ref::values(LA, e, Q(0));
+    std::string k;
+    if (va.kind == ref::ValSet::CONST) k = std::string("const-var-") + (wp.sgn ? "signed" : "unsigned");
+    else if (va.kind == ref::ValSet::ALL) k = ref::line_member(LA, e) ? "free-var" : "var-on-oblique-line";
+    else {
+      Q M(wp.M);
+      k = std::string("periodic-var-") + (!is_int(va.step) ? "fractional-step" : va.step * 2 < M ? "step-lt-half-range" : va.step < M ? "step-ge-half-range" : va.step == M ? "step-eq-range" : "step-gt-range");
+      if (!is_int(va.base)) k += "-fractional-base";
+    }
+    kinds.insert(k);
+  }
+  if (kinds.empty()) return "joint";
+  std::string r; for (std::set<std::string>::iterator i = kinds.begin(); i != kinds.end(); ++i) r += (r.empty() ? "" : "+") + *i;
+  return r;
+}
+
 // harness self-check: a reported witness must be confirmed by PPL's own containment test on a copy
 static void report_lost(IDom& R, const std::string& key, const Vec& q, const std::string& detail) {
   bool ppl_has = false;
@@ -449,7 +495,8 @@ static void case_wrap(const Entry& E, IDom& X) {
       ++images;
       if (!SR.member(q)) {
         std::ostringstream o; o << "argument point " << pplx::show(p) << " requires image " << pplx::show(q) << " which is not in the result; argument=" << show_shadow(SA) << " result=" << show_shadow(SR);
-        report_lost(X, "C17.wrap." + inst() + "." + mode + ".lost_point:" + point_class(wp, moved), q, o.str());
+        std::string cls = E.family == F_GRID ? grid_class(SA, SR, n, wp, q) : generic_class(SA, n, wp, p, moved);
+        report_lost(X, "C17.wrap." + inst() + "." + mode + ".lost_point:" + cls, q, o.str());
         return;
       }
     }
